@@ -570,6 +570,13 @@ class C10:
                    tags: ("nonempty",) if not empty else (), ("not", tags): empty,
                    ("cmp", "is", Q["select_by_key"], NONE): not sel, ("cmp", "isnot", Q["select_by_key"], NONE): sel,
                    ("cmp", "is", Q["index"], NONE): not idx, ("cmp", "isnot", Q["index"], NONE): idx}
+            if nxt is None:
+                # a lookup through a dict built over the tags: {key(t): t for t in tags}.get(select_by_key)
+                for e in s2.calls:
+                    t_ = e.term
+                    if t_[1][0] == "attr" and t_[1][2] == "get" and t_[1][1][0] == "comp" and t_[1][1][1] == "dict" \
+                            and t_[1][1][3][0][1] == tags and t_[2][:1] == (Q["select_by_key"],):
+                        nxt = t_
             if nxt is not None:
                 env[("cmp", "is", nxt, NONE)] = not found
                 env[("cmp", "isnot", nxt, NONE)] = found
@@ -604,6 +611,11 @@ class C10:
         outs, nxt = run2(sel=True, found=True, idx=True)
         sel_ok = nxt is not None and nxt[2] and nxt[2][0][0] == "comp" and nxt[2][0][3][0][1] == tags and len(nxt[2]) == 2 and nxt[2][1] == NONE and \
             any(x[0] == "cmp" and x[1] == "eq" and Q["select_by_key"] in (x[2], x[3]) for x in nxt[2][0][3][0][2])
+        if nxt is not None and nxt[1][0] == "attr" and nxt[1][2] == "get":
+            ctx.bad("R10.6", file, "label_from_tags", f"{show(nxt)[:80]}",
+                    "the tag for select_by_key is looked up in a dict built over the tags: for a key that occurs twice the dict keeps the LAST "
+                    "tag, the documented cascade (and the import direction) take the FIRST", s2.node.lineno,
+                    witness={"tags": "[species:Myotis, species:Pipistrellus]", "select_by_key": "species"})
         checks.append(("select_by_key, tag found", outs, lambda o, nxt=nxt: sel_ok and len(o) == 1 and is_lft(o[0], lambda a: a == nxt, value_only=True),
                        "label_from_tag(<first tag with that key>, value_only=True, **kwargs)"))
         outs, _ = run2(sel=True, found=False, idx=True)
